@@ -157,3 +157,135 @@ def new_joinlist(st, pre=None, last=None, n=None):
                     "last": last if last is not None else z3.StringVal(""),
                     "n": n if n is not None else z3.IntVal(0)})
     return JoinListV(ref)
+
+
+# --------------------------------------------------------------------------- full socket API (C06, C01, C02, C10)
+
+def _fault(E, st, what):
+    """An Exception-class failure of an environment call (OSError, timeout, ssl error, ValueError, ...)."""
+    kinds = st.ghost.get("env_faults", ("exception",))
+    outs = []
+    if "exception" in kinds:
+        x = st.fork()
+        x.trace.append("fault@" + what)
+        outs.append(Ev(x, exc=ExcV("Exception", exact=False)))
+    if "async" in kinds:
+        x = st.fork()
+        x.trace.append("async@" + what)
+        outs.append(Ev(x, exc=ExcV("AsyncInterrupt", exact=True)))
+    return outs
+
+
+def _ev(st, rec, *event):
+    rec["events"] = rec.get("events", []) + [event]
+
+
+def sock_settimeout(self, E, st, args, kwargs):
+    outs = _fault(E, st, "settimeout")
+    _ev(st, self.rec(st), "settimeout", args[0])
+    return outs + [Ev(st, NONE)]
+
+
+def sock_setsockopt(self, E, st, args, kwargs):
+    outs = _fault(E, st, "setsockopt")
+    _ev(st, self.rec(st), "setsockopt", tuple(args))
+    return outs + [Ev(st, NONE)]
+
+
+def sock_connect(self, E, st, args, kwargs):
+    outs = _fault(E, st, "connect")
+    r = self.rec(st)
+    _ev(st, r, "connect", args[0])
+    r["connected"] = True
+    return outs + [Ev(st, NONE)]
+
+
+def sock_close(self, E, st, args, kwargs):
+    """close() is counted when it is *called*; it may still raise (an Exception-class error)."""
+    r = self.rec(st)
+    target = r
+    while target.get("inner") is not None:           # a TLS wrapper closes the socket it wraps
+        target = st.heap[target["inner"].ref]
+    for rr in ({id(r): r, id(target): target}).values():
+        rr["close_calls"] = rr.get("close_calls", 0) + 1
+    if target.get("counted", True) and target["close_calls"] == 1:
+        st.ghost["closed_count"] = st.ghost.get("closed_count", z3.IntVal(0)) + 1
+    _ev(st, r, "close")
+    outs = _fault(E, st, "close")
+    return outs + [Ev(st, NONE)]
+
+
+def sock_sendall(self, E, st, args, kwargs):
+    outs = _fault(E, st, "sendall")
+    if len(args) != 1 or not isinstance(args[0], BytesV):
+        raise OutOfReach("sendall of non-bytes")
+    r = self.rec(st)
+    r["out"] = z3.Concat(r["out"], args[0].t)
+    r["sends"] = r.get("sends", 0) + 1
+    _ev(st, r, "sendall", args[0])
+    return outs + [Ev(st, NONE)]
+
+
+SockV.m_settimeout = sock_settimeout
+SockV.m_setsockopt = sock_setsockopt
+SockV.m_connect = sock_connect
+SockV.m_close = sock_close
+SockV.m_sendall = sock_sendall
+
+
+class AddrInfoV(V):
+    """Result of getaddrinfo: a non-empty list of 5-tuples (uninterpreted per index)."""
+    kind = "addrinfo"
+
+    def __init__(self, n):
+        self.n = n
+
+    def iter_view(self, E, st):
+        f = lambda name: z3.Function("ai_" + name, z3.IntSort(), Py)
+        return self.n, (lambda i: TupleV([OpaqueV(f(x)(i), tag=x) for x in ("family", "socktype", "proto", "canon", "sockaddr")]))
+
+    def truth(self, E, st):
+        return self.n > 0
+
+
+class SockModV(V):
+    """The socket_module seam: socket() creates ghost sockets, getaddrinfo resolves."""
+    kind = "sockmod"
+
+    def call_method(self, E, name, st, args, kwargs, fx, site):
+        if name == "socket":
+            outs = _fault(E, st, "socket()")
+            s = new_sock(st, "s%d" % st.ghost.get("created_py", 0))
+            st.ghost["created_py"] = st.ghost.get("created_py", 0) + 1
+            st.ghost["created_count"] = st.ghost.get("created_count", z3.IntVal(0)) + 1
+            s.rec(st)["family"] = args[0] if args else None
+            st.ghost.setdefault("sockets", []).append(s)
+            return outs + [Ev(st, s)]
+        if name == "getaddrinfo":
+            outs = _fault(E, st, "getaddrinfo")
+            n = z3.Int(fresh_name("n_addr"))
+            st.assume(n >= 1)
+            st.ghost["getaddrinfo_args"] = list(args)
+            return outs + [Ev(st, AddrInfoV(n))]
+        raise OutOfReach("socket module function " + name)
+
+
+class TLSContextV(V):
+    kind = "tlsctx"
+
+    def truth(self, E, st):
+        return True
+
+    def call_method(self, E, name, st, args, kwargs, fx, site):
+        if name == "wrap_socket" and len(args) == 1 and isinstance(args[0], SockV):
+            outs = _fault(E, st, "wrap_socket")
+            raw = args[0]
+            w = new_sock(st, "tls")
+            wr = w.rec(st)
+            wr["inner"] = raw
+            wr["counted"] = False
+            wr["server_hostname"] = kwargs.get("server_hostname")
+            wr["inp"], wr["pos"] = raw.rec(st)["inp"], raw.rec(st)["pos"]
+            st.ghost.setdefault("sockets", []).append(w)
+            return outs + [Ev(st, w)]
+        raise OutOfReach("tls context method " + name)
